@@ -23,7 +23,7 @@ func TestMain(m *testing.M) {
 }
 
 type Op struct {
-	K string `json:"k"` // read | seek | churn | close
+	K string `json:"k"` // read | seek | churn | close | rewrite
 	N int    `json:"n,omitempty"`
 }
 
@@ -37,7 +37,8 @@ type Case struct {
 	Opts   gen.WriterOpts `json:"opts"`
 	Ops    []Op           `json:"ops"`
 	Async  bool           `json:"async,omitempty"`
-	Clone  bool           `json:"clone,omitempty"` // row reads: keep clones (valid forever) instead of raw rows
+	Clone  bool           `json:"clone,omitempty"`  // row reads: keep clones (valid forever) instead of raw rows
+	Source string         `json:"source,omitempty"` // typed reads: "" file | "GenericBuffer" | "RowBuffer" (in-memory row group, rewritten by "rewrite" ops)
 }
 
 var byteLeaves = []string{"string", "bytes", "flba:5", "flba:16", "uuid", "int96", "decbytes:20:5", "json", "int64", "double", "bool"}
@@ -77,6 +78,15 @@ func genCase(t *rapid.T) Case {
 	c.Ops = append(c.Ops, Op{K: "churn", N: 2}, Op{K: "close"}, Op{K: "churn", N: 2})
 	c.Async = rapid.IntRange(0, 3).Draw(t, "async") == 0
 	c.Clone = rapid.Bool().Draw(t, "clone")
+	if c.Type != "" && rapid.IntRange(0, 2).Draw(t, "buffered") == 0 {
+		c.Source = []string{"GenericBuffer", "RowBuffer"}[rapid.IntRange(0, 1).Draw(t, "bufkind")]
+		// the memory of the buffer is reused when it is reset and written again
+		for i := range c.Ops {
+			if c.Ops[i].K == "churn" {
+				c.Ops[i].K = "rewrite"
+			}
+		}
+	}
 	return c
 }
 
@@ -103,10 +113,10 @@ func churn(n int) {
 }
 
 type held struct {
-	what string
-	snap []ref.V     // snapshot taken at hand-over
-	live func() []ref.V // re-extraction from the live object
-	until int          // op index after which it is no longer checked (-1: forever)
+	what  string
+	snap  []ref.V        // snapshot taken at hand-over
+	live  func() []ref.V // re-extraction from the live object
+	until int            // op index after which it is no longer checked (-1: forever)
 }
 
 func runCase(c Case, o *kit.Obs) *kit.Failure {
@@ -175,7 +185,13 @@ func runCase(c Case, o *kit.Obs) *kit.Failure {
 	var tr *typed.Reader
 	var rr *parquet.Reader
 	var err error
-	if e != nil {
+	if e != nil && c.Source != "" {
+		if tr, err = e.OpenBufferReader(c.Source, e.New(vals)); err != nil {
+			o.Rejected()
+			return nil
+		}
+		feat = "{api=GenericReader.Read(" + c.Source + ")}"
+	} else if e != nil {
 		if tr, err = e.OpenReader(data, fo...); err != nil {
 			return kit.Failf("c16/open-error", "%v", err)
 		}
@@ -255,6 +271,24 @@ func runCase(c Case, o *kit.Obs) *kit.Failure {
 			if err != nil {
 				return kit.Failf("c16/seek-error"+feat, "SeekToRow(%d of %d): %v", k, numRows, err)
 			}
+		case "rewrite":
+			if tr != nil && tr.Rewrite != nil && !closed {
+				// other rows (reversed order: different bytes at every position) in the same memory
+				rev := make([]ref.V, len(vals))
+				for i := range vals {
+					rev[i] = vals[len(vals)-1-i]
+				}
+				if op.N%2 == 0 {
+					rev = rev[:len(rev)/2]
+				}
+				if err := tr.Rewrite(e.New(rev)); err != nil {
+					return kit.Failf("c16/rewrite-error"+feat, "%v", err)
+				}
+				numRows = int64(len(rev))
+				churned = true
+				break
+			}
+			fallthrough
 		case "churn":
 			churn(op.N)
 			churned = true
